@@ -63,7 +63,7 @@ func laws(sel int, in, got []int64, law func(lsel int, lin []int64, sig string))
 			w.Obs(1, cur)
 			law(111, w.T, "")
 			law(112, w.T, "")
-			law(113, w.T, "C05-pgpending-stale-counters")
+			law(113, w.T, "")
 			law(114, w.T, "")
 		}
 	case 2:
